@@ -7,6 +7,9 @@ mod c16;
 mod c17;
 mod c19;
 mod c20;
+mod gen;
+mod reqfam;
+mod strfam;
 
 use util::*;
 
@@ -32,10 +35,29 @@ fn main() {
         }
     }
     // keep panic output out of the way: every call is wrapped in catch_unwind and reported
-    std::panic::set_hook(Box::new(|_| {}));
+    if std::env::var_os("VERIF_PANIC_TRACE").is_none() { std::panic::set_hook(Box::new(|_| {})); }
     let mut ctx = Ctx { tier_thorough, seed, dir, rng: Rng::new(seed), replay, widen };
     if let Some(r) = ctx.replay.clone() { exec::replay(&ctx, &r); return; }
     match prop.as_str() {
+        "C01" => reqfam::run_c01(&mut ctx),
+        "C06" => reqfam::run_c06(&mut ctx),
+        "C02" => strfam::run_c02(&mut ctx),
+        "C05" => strfam::run_c05(&mut ctx),
+        "C18" => strfam::run_c18(&mut ctx),
+        "C03" => {
+            let mut log = Log::new(&ctx.dir); let mut im = exec::Impl::new();
+            let mut or = Oracle::new("C03", "malformed and valid traffic under >= 3 chunkings each (metamorphic), parse(0), calls after done/fatal, conversions at non-final states; catch_unwind around every call with debug-assertions and overflow-checks on");
+            reqfam::c03_req(&mut ctx, &mut log, &mut im, &mut or);
+            strfam::c03_str(&mut ctx, &mut log, &mut im, &mut or);
+            or.count_n("corr_ops", log.nops); log.finish(); or.write(&ctx.dir);
+        }
+        "C04" => {
+            let mut log = Log::new(&ctx.dir); let mut im = exec::Impl::new();
+            let mut or = Oracle::new("C04", "noise-laden preambles and streams; replies compared byte-for-byte with the specification-side list of owed replies");
+            reqfam::c04_req(&mut ctx, &mut log, &mut im, &mut or);
+            strfam::c04_str(&mut ctx, &mut log, &mut im, &mut or);
+            or.count_n("corr_ops", log.nops); log.finish(); or.write(&ctx.dir);
+        }
         "C15" => c15::run(&mut ctx),
         "C16" => c16::run(&mut ctx),
         "C17" => c17::run(&mut ctx),
